@@ -1,7 +1,7 @@
 /- R9G9B9E5: all 32 × 512 (exponent, mantissa) pairs, all three precisions (kernel evaluation, two chunks). -/
 import DdsModel.Proofs.ConvFloat
 namespace Dds.ConvProofs
-open Dds Dds.Conv Dds.Spec Dds.F32
+open Dds Dds.Conv Dds.Spec Dds.CF32 Dds.ConvRange
 set_option maxRecDepth 100000
 
 def okShared (i : Nat) : Bool :=
